@@ -7,7 +7,7 @@ CONSTANTS
   BufCounts = {1, 2, 3, 4}
   FlashSizes = {1, 2, 3, 4, 6, 9, 12}
   MaxLen = 400
-  Fates = {"ok", "okdup", "nack", "lostcmd", "lostreply"}
+  Fates = {"ok", "okdup", "nack", "lostcmd", "lostreply", "stray"}
   Bug = "none"
   Observe = TRUE
 INVARIANT PropOK
